@@ -46,7 +46,7 @@ Mask(s)     == [j \in 1..N |-> Legal(s, j - 1)]                   \* layout of t
 (* The chosen colour is written to the current node whether or not it is allowed (the docs do not promise an
    untouched state for GraphColoring); the next node in index order becomes current.  After the last node
    the index wraps to 0 (the declared observation spec confines it to 0..N-1). *)
-Next(s, a) ==
+Succ(s, a) ==
   [adj_matrix         |-> s.adj_matrix,
    colors             |-> [s.colors EXCEPT ![Cur(s)] = a],
    current_node_index |-> (s.current_node_index + 1) % N]
@@ -98,5 +98,5 @@ Degree(s, u) == Cardinality({ v \in Nodes : v # u /\ Edge(s, u, v) })
 Horizon == N
 
 (* integer square root of small numbers (density test of C10) *)
-ISqrt(x) == CHOOSE r \in 0..3000 : r * r <= x /\ (r + 1) * (r + 1) > x
+ISqrt(x) == CHOOSE r \in 0..46000 : r * r <= x /\ (r + 1) * (r + 1) > x
 =============================================================================
